@@ -405,6 +405,27 @@ func (c13) Run(c *Case, st *Stats) []Violation {
 					add("setup-error", "-", err.Error())
 					return
 				}
+				if repoDir != "" && c.Seed%8 == 1 {
+					// a file as a data provider exports it: an "Adj Close" column after "Close" (columns
+					// the snapshot type does not declare are none of the reader's business)
+					fp := filepath.Join(repoDir, a.Name+".csv")
+					if b, err := os.ReadFile(fp); err == nil {
+						lines := strings.Split(strings.TrimRight(string(b), "\n"), "\n")
+						for li, ln := range lines {
+							cells := strings.Split(ln, ",")
+							if len(cells) != 6 {
+								continue
+							}
+							extra := "Adj Close"
+							if li > 0 {
+								extra = "0.5"
+							}
+							lines[li] = strings.Join(append(append(append([]string{}, cells[:5]...), extra), cells[5]), ",")
+						}
+						os.WriteFile(fp, []byte(strings.Join(lines, "\n")+"\n"), 0o644)
+						st.Faults["asset-file-with-a-column-named-like-a-field-suffix"]++
+					}
+				}
 				if repoDir != "" && a.Seed%5 == 0 {
 					// the asset's file is kept elsewhere and linked into the repository directory
 					if linkDir == "" {
